@@ -73,6 +73,7 @@ func (s *Store) Push(b bpv7.Bundle) error {
 	bi := newBundleItem(b, s.bundleDir)
 
 	if biStore, err := s.QueryId(b.ID()); err != nil {
+		verifPoint("push:after-query", bi.Id)
 		log.WithFields(log.Fields{
 			"bundle": b.ID().String(),
 		}).Info("Bundle ID is unknown, inserting BundleItem")
@@ -80,6 +81,7 @@ func (s *Store) Push(b bpv7.Bundle) error {
 		if err := bi.Parts[0].storeBundle(b); err != nil {
 			return err
 		}
+		verifPoint("push:before-index", bi.Id)
 
 		return s.bh.Insert(bi.Id, bi)
 	} else if bi.Fragmented {
@@ -91,6 +93,7 @@ func (s *Store) Push(b bpv7.Bundle) error {
 		}
 
 		knownFragment := false
+		verifPoint("push:after-query", bi.Id)
 		compPart := bi.Parts[0]
 		for _, part := range biStore.Parts {
 			if part.FragmentOffset == compPart.FragmentOffset &&
@@ -113,6 +116,7 @@ func (s *Store) Push(b bpv7.Bundle) error {
 			if err := compPart.storeBundle(b); err != nil {
 				return err
 			}
+			verifPoint("push:before-index", bi.Id)
 
 			biStore.Parts = append(biStore.Parts, compPart)
 			return s.bh.Update(biStore.Id, biStore)
@@ -131,6 +135,7 @@ func (s *Store) Update(bi BundleItem) error {
 	log.WithFields(log.Fields{
 		"bundle": bi.Id,
 	}).Debug("Store updates BundleItem")
+	verifPoint("update:entry", bi.Id)
 
 	return s.bh.Update(bi.Id, bi)
 }
@@ -150,7 +155,9 @@ func (s *Store) Delete(bid bpv7.BundleID) error {
 					"error":  err,
 				}).Warn("Failed to delete BundlePart")
 			}
+			verifPoint("delete:part-removed", bi.Id)
 		}
+		verifPoint("delete:before-index", bi.Id)
 
 		return s.bh.Delete(bi.Id, BundleItem{})
 	}
